@@ -27,3 +27,8 @@ SPECS = {
              skip_calls=['_validate_parameters'], methods=['gamma_L']),
     ]),
 }
+
+# The C09 whitelist is translated by the translator version it was built and validated with
+# (harness/py2coq_c09.py: py2coq + Rbar/np.inf, record arguments, parameter calls, look-up loops, ...);
+# its `none_args` option has a different meaning from the one in py2coq.py (C15), so the two were not merged.
+TRANSLATOR = 'py2coq_c09'
